@@ -46,6 +46,8 @@ def run(F, rep, tier):
     qualified_lookup(F, rep)
     decl_order(F, rep)
     visit_resolver(F, rep)
+    import c07
+    c07.visit_loops_complete(F, rep)
     names_unused(F, rep)
     duplicates(F, rep)
 
